@@ -448,7 +448,7 @@ def rule_rwrite(c: Ctx) -> RuleResult:
                     continue
                 recv = cs.node.func.value if isinstance(cs.node.func, ast.Attribute) else None
                 root = access_path(recv)[-1] if recv is not None else None
-                fresh = isinstance(root, ast.Name) and c.eff.fresh_local(f, root.id)
+                fresh = isinstance(root, ast.Name) and (c.eff.fresh_local(f, root.id) or c.eff.fresh_at(f, root.id, cs.node))
                 n_tok += 1
                 key = f"{f.short}|{U(cs.node.func)}|{U(cs.node.args[0]) if cs.node.args else ''}"
                 if fresh:
@@ -458,10 +458,22 @@ def rule_rwrite(c: Ctx) -> RuleResult:
                 is_alt = g.name == "attrSet" and cs.node.args and isinstance(cs.node.args[0], ast.Constant) and cs.node.args[0].value == "alt" \
                     and f.name == "image"
                 if is_alt:
+                    from ..interproc import expand
                     val = cs.node.args[1]
-                    ok = isinstance(val, ast.Constant) or (
-                        isinstance(val, ast.Call) and isinstance(val.func, ast.Attribute) and val.func.attr == "renderInlineAsText"
-                        and val.args and U(val.args[0]).endswith(".children") and U(val.args[0]).split(".")[0] == U(recv))
+                    if isinstance(val, ast.Name):
+                        # a local holding the alt text: inline its (single) definition - calls are kept as they are
+                        vals = [n.value for n in own_nodes(f.node) if isinstance(n, ast.Assign) and any(isinstance(t, ast.Name) and t.id == val.id for t in n.targets)]
+                    else:
+                        vals = [val]
+
+                    def alt_ok(v: ast.AST) -> bool:
+                        if isinstance(v, ast.Constant):
+                            return True
+                        if isinstance(v, ast.IfExp):
+                            return alt_ok(v.body) and alt_ok(v.orelse)
+                        return (isinstance(v, ast.Call) and isinstance(v.func, ast.Attribute) and v.func.attr == "renderInlineAsText"
+                                and bool(v.args) and U(v.args[0]).endswith(".children") and U(v.args[0]).split(".")[0] == U(recv))
+                    ok = bool(vals) and all(alt_ok(v) for v in vals)
                     r.add(key, c.where(f, cs.node), f.short, U(cs.node)[:70], "discharged" if ok else "violation",
                           "idempotent: the alt text is recomputed from the token's own children, which the renderer never writes" if ok else
                           "alt is not a pure function of the token's own children")
